@@ -1,5 +1,6 @@
 #![allow(dead_code)]
 mod driver;
+mod probe;
 mod props;
 mod report;
 mod rng;
@@ -11,6 +12,11 @@ fn main() {
     if args.len() < 2 {
         eprintln!("usage: tsg-verif <Cxx> [--tier quick|thorough] [--seed N] [--out FILE]");
         std::process::exit(2);
+    }
+    if args[1] == "probe" {
+        std::panic::set_hook(Box::new(|_| {}));
+        let ok = probe::run();
+        std::process::exit(if ok { 0 } else { 1 });
     }
     let prop = args[1].to_uppercase();
     let mut tier = "quick".to_string();
